@@ -1,5 +1,5 @@
 NOT_BUILT_REASON = "check not built yet in this round (planned in DESIGN.md §6; no technique switch) — not claimed until its model, theorems and tie exist"
-HOOK_COMMITS = ["a8ec8bc", "7940221", "8e91bb8", "7833f85", "8231a69", "4de7b06", "9feb3d7", "6bf0c0c"]
+HOOK_COMMITS = ["a8ec8bc", "7940221", "8e91bb8", "7833f85", "8231a69", "4de7b06", "9feb3d7", "6bf0c0c", "75a0848"]
 FIX_COMMITS = ["015f090", "41db3ad", "75a9f5a", "4587203", "e4ec556", "eab68f8", "e97ad21", "9437e84", "8556715", "5c99d8a", "cada90e", "305e9a5", "f51e354", "8d80cd3", "b3dd5ae", "7ed0301"]
 # properties that are deliberately not claimed, with the reason (overrides NOT_BUILT_REASON)
 NA_REASONS = {}
